@@ -97,11 +97,22 @@ Definition promote (sigma : list ident -> list ident) (c : construct) : list dec
 Definition perm_oracle (sigma : list ident -> list ident) : Prop :=
   forall l, Permutation (sigma l) l.
 
-(* guard of the _partial theorem: at most one new name per branch; every new name of a loop
-   body is met as a VarDecl by _collect_order *)
+(* the names of a branch that record() really appends: not declared by the parent, not recorded by an earlier branch *)
+Definition effective (parent acc : list ident) (br : list decl) : list ident :=
+  filter (fun x => negb (tmem x parent || tmem x acc)) (map fst br).
+
+(* branches in source order, [acc] = the names recorded so far *)
+Fixpoint guard_if (parent acc : list ident) (brs : list (list decl)) : bool :=
+  match brs with
+  | [] => true
+  | br :: r => let e := effective parent acc br in (List.length e <=? 1)%nat && guard_if parent (acc ++ e) r
+  end.
+
+(* guard of the _partial theorem: every branch contributes at most one name that is not yet recorded; every
+   new name of a loop body is met as a VarDecl by _collect_order *)
 Definition guard (c : construct) : bool :=
   match c with
-  | CIf _ brs => forallb (fun br => (List.length br <=? 1)%nat) brs
+  | CIf parent brs => guard_if parent [] brs
   | CLoop d s => forallb (fun x => tmem x d) (map fst s)
   end.
 
